@@ -22,7 +22,8 @@ RULE = ('generated data models (gens/data.py): both flavours; any subset of the 
         '(4) independent Fortran-style writer (E / D / lower-case exponents, requested section order) -> library read == '
         'independent read, order preserved on rewrite; shipped: the data files under tests/data and tests/grid. '
         'Non-trivial = at least 3 optional sections and one non-empty list section; distinct = model JSON.'
-        ' Since the seeded rounds: enthalpy tables of zeros; leg 5 = on half of the TOUGH2 models read from the independently written (permuted-order) file the simulator is set, the model written and re-read, and compared with the model as it was.')
+        ' Since the seeded rounds: enthalpy tables of zeros; leg 5 = on half of the TOUGH2 models read from the independently written (permuted-order) file the simulator is set, the model written and re-read, and compared with the model as it was.'
+        ' Rounds 7-10: time-step tables with unused announced records; rock names that read like an index / number / keyword; blank k2 / k3; inner absent primary variables; simulator strings not beginning with AUTOUGH2; generator NSEQ/NADD/NADS = 0 kept; the re-read grid must satisfy the structural invariant of C08; half of the models are written twice under the same names.')
 ASSUMPTIONS = ['names are generated at full field width (5 characters); rock names are unique, block names are unique after the '
                '(A3,I2) repair; history/short items refer to existing blocks, connections and generators',
                'reals in D-exponent or dropped-letter style are read with read_function=fortran_read_function, as the user guide prescribes',
